@@ -99,8 +99,23 @@ def gen_function_location(trig):
         raise Untranslatable('FunctionLocation.__init__ changed shape')
     named = clone_with_body(f, body[:idx[0]] + body[idx[0] + 1:])
     tr = Translator(subst={'self.path': 'path', 'self.__function_name': 'fname'})
-    return tr.function(named, 'def funcAtLocation (path fname : String) (event file : String) (line : Int) '
-                              '(function_name : String) : Bool')
+    out = tr.function(named, 'def funcAtLocation (path fname : String) (event file : String) (line : Int) '
+                             '(function_name : String) : Bool')
+    # a method tracepoint without a method name on a file whose source is not available: the block starts by
+    # reading the source lines of the frame, which raises (OSError) — `none`; before the block only the path test
+    pre = body[:idx[0]]
+    first = no_logging(blk.body)[0] if no_logging(blk.body) else None
+    if not (len(pre) == 1 and isinstance(pre[0], ast.If) and not pre[0].orelse
+            and [ast.unparse(x) for x in pre[0].body] == ['return False']
+            and first is not None and ast.unparse(first) == 'lines, start = inspect.getsourcelines(frame)'):
+        raise Untranslatable('FunctionLocation.at_location: the unnamed-function block no longer starts by reading '
+                             'the source lines after the path test')
+    out += ('\n/-- `FunctionLocation.at_location` of a location without a function name, for a frame whose source is not\n'
+            '    available (`inspect.getsourcelines` raises): `none` = raises. -/\n'
+            'def funcAtLocationNoSource (path : String) (event file : String) (line : Int) (function_name : String) : '
+            'Option Bool :=\n'
+            f'  if {tr.expr(pre[0].test)} then some false else none\n')
+    return out
 
 
 def gen_callback_context(cb):
@@ -193,7 +208,10 @@ class _StripLogging(ast.NodeTransformer):
 
 
 def gen_trace_call(h):
-    f = find_def(h, 'TriggerHandler.__trace_call')
+    try:
+        f = find_def(h, 'TriggerHandler.__trace_call')
+    except Untranslatable:
+        f = find_def(h, 'TriggerHandler.trace_call')     # the steps directly in trace_call (no catch-all wrapper)
     if params(f) != ['self', 'frame', 'event', 'arg']:
         raise Untranslatable('__trace_call signature changed')
     import copy
@@ -216,10 +234,6 @@ def gen_trace_call(h):
     if [ast.dump(x) for x in got] != [ast.dump(x) for x in want]:
         raise Untranslatable('TriggerHandler.__trace_call no longer has the sequence of steps the model follows '
                              '(callbacks, empty-config return, actions, no-action return, process, push callbacks)')
-    outer = find_def(h, 'TriggerHandler.trace_call')
-    if not same_shape(outer, 'try:\n    return self.__trace_call(frame, event, arg)\nexcept BaseException:\n'
-                             '    logging.exception("Cannot process event %s", event)\n    return self.trace_call'):
-        raise Untranslatable('TriggerHandler.trace_call is no longer the catch-all wrapper of __trace_call')
     tr = Translator(subst={'self._callbacks.is_set': 'is_set', 'len(self._tp_config)': 'n_config',
                            'len(actions)': 'n_actions', 'len(callbacks)': 'n_callbacks'})
     out = ['/-- guard of the callback step of `__trace_call` -/\n'
@@ -258,26 +272,35 @@ def gen_actions_for_location(h, trig):
     if params(f) != ['self', 'event', 'file', 'line', 'function', 'frame']:
         raise Untranslatable('__actions_for_location signature changed')
     body = no_logging(strip_doc(f.body))
-    if not (len(body) == 3 and isinstance(body[0], ast.Assign) and ast.unparse(body[0]) == 'actions = []'
-            and isinstance(body[1], ast.For) and ast.unparse(body[1].target) == 'trigger'
+    if not (len(body) == 3 and isinstance(body[0], ast.Assign) and isinstance(body[0].targets[0], ast.Name)
+            and ast.unparse(body[0].value) == '[]'
+            and isinstance(body[1], ast.For) and isinstance(body[1].target, ast.Name)
             and ast.unparse(body[1].iter) == 'self._tp_config' and not body[1].orelse
-            and isinstance(body[2], ast.Return) and ast.unparse(body[2].value) == 'actions'):
-        raise Untranslatable('__actions_for_location is no longer `actions = []; for trigger in config: ..; return actions`')
+            and isinstance(body[2], ast.Return) and isinstance(body[2].value, ast.Name)
+            and body[2].value.id == body[0].targets[0].id):
+        raise Untranslatable('__actions_for_location is no longer `acc = []; for t in self._tp_config: ..; return acc`')
+    A, T = body[0].targets[0].id, body[1].target.id          # names of the accumulator and of the loop variable
     loop = no_logging(body[1].body)
+    # optional: the test + accumulate of one trigger wrapped in `try: .. except Exception: <logging only>`
+    isolated = False
+    if len(loop) == 1 and isinstance(loop[0], ast.Try):
+        t = loop[0]
+        if not (len(t.handlers) == 1 and t.handlers[0].type is not None
+                and ast.unparse(t.handlers[0].type) in ('Exception', 'BaseException')
+                and not no_logging(t.handlers[0].body) and not t.orelse and not t.finalbody):
+            raise Untranslatable('__actions_for_location: per-trigger try is not `except Exception: <logging>`')
+        isolated = True
+        loop = no_logging(t.body)
     if not (len(loop) == 1 and isinstance(loop[0], ast.If) and not loop[0].orelse
-            and ast.unparse(loop[0].test) == 'trigger.at_location(event, file, line, function, frame)'):
+            and ast.unparse(loop[0].test) == '%s.at_location(event, file, line, function, frame)' % T):
         raise Untranslatable('__actions_for_location: loop body is no longer one `if trigger.at_location(..)`')
     acc = 'actions'
     for s in no_logging(loop[0].body):
         src = ast.unparse(s)
-        if src == 'actions += trigger.actions':
+        if src in ('%s += %s.actions' % (A, T), '%s = %s + %s.actions' % (A, A, T), '%s.extend(%s.actions)' % (A, T)):
             acc = f'({acc} ++ actionsOf trigger)'
-        elif src == 'actions = trigger.actions':
+        elif src == '%s = %s.actions' % (A, T):
             acc = '(actionsOf trigger)'
-        elif src == 'actions = actions + trigger.actions':
-            acc = f'({acc} ++ actionsOf trigger)'
-        elif src == 'actions.extend(trigger.actions)':
-            acc = f'({acc} ++ actionsOf trigger)'
         else:
             raise Untranslatable('__actions_for_location: statement outside the vocabulary: ' + src[:80])
     # Trigger.at_location delegates to its location; Trigger.actions lists its actions in order
@@ -290,10 +313,28 @@ def gen_actions_for_location(h, trig):
     wl = find_def(trig, 'LocationAction.with_location')
     if not same_shape(wl, 'self.__location = location\nreturn self'):
         raise Untranslatable('LocationAction.with_location changed shape')
-    return ('/-- `TriggerHandler.__actions_for_location`: the loop over the installed triggers -/\n'
-            'def actionsForLocation {τ α : Type} (atLocation : τ → Bool) (actionsOf : τ → List α) '
-            '(tp_config : List τ) : List α :=\n'
-            f'  tp_config.foldl (fun actions trigger => if atLocation trigger then {acc} else actions) []\n')
+    on_raise = 'some actions   -- caught per trigger: this trigger contributes nothing' if isolated \
+        else 'none   -- propagates out of __actions_for_location'
+    return ('/-- `TriggerHandler.__actions_for_location`: the loop over the installed triggers.  `atLocation t = none`\n'
+            '    means `t.at_location(..)` raises; result `none` = the exception leaves the function. -/\n'
+            'def actionsForLocation {τ α : Type} (atLocation : τ → Option Bool) (actionsOf : τ → List α) '
+            '(tp_config : List τ) : Option (List α) :=\n'
+            '  tp_config.foldl (fun acc trigger =>\n'
+            '    match acc with\n'
+            '    | none => none\n'
+            '    | some actions =>\n'
+            '      match atLocation trigger with\n'
+            f'      | none => {on_raise}\n'
+            f'      | some b => if b then some {acc} else some actions) (some [])\n')
+
+
+def check_wrapper(h):
+    """the model treats an IndexError inside __trace_call as "the event is abandoned": that is what the catch-all
+    wrapper does — needed only when __process_call_backs can pop from an empty deque."""
+    outer = find_def(h, 'TriggerHandler.trace_call')
+    if not same_shape(outer, 'try:\n    return self.__trace_call(frame, event, arg)\nexcept BaseException:\n'
+                             '    logging.exception("Cannot process event %s", event)\n    return self.trace_call'):
+        raise Untranslatable('TriggerHandler.trace_call is no longer the catch-all wrapper of __trace_call')
 
 
 def gen_process_call_backs(h):
@@ -315,6 +356,8 @@ def gen_process_call_backs(h):
             raise Untranslatable('__process_call_backs: empty-queue guard outside the vocabulary')
     if not body:
         raise Untranslatable('__process_call_backs has no pop')
+    if on_empty.startswith('none'):
+        check_wrapper(h)
     first = body[0]
     val = first.value if isinstance(first, (ast.Assign, ast.AnnAssign)) else None
     tgt = (first.target if isinstance(first, ast.AnnAssign) else
